@@ -75,17 +75,19 @@ def gen(t, tier):
     seen = []
     # deep pyramid: ten levels, tiles next to the bundle / directory-group borders 127|128 and 255|256 of levels 8 and 9,
     # cleaned up through a small coverage around the border (the tile walk then meets meta tiles that span two bundles)
-    deep = gk == 'global2' and b.get('directory_layout') != 'quadkey' and t.chance(0.2)
+    # (layouts without level directories clean a whole extent by walking every tile of every level: not on a deep pyramid)
+    deep = gk == 'global2' and b.get('directory_layout') not in ('quadkey', 'reverse_tms') and t.chance(0.15)
     if deep:
-        sc['grid']['num_levels'] = 10
+        sc['grid']['num_levels'] = 12       # two-digit level numbers: names of level 1 and of levels 10, 11 share a prefix
         sc['meta_size'] = t.pick([[3, 3], [5, 5], [2, 2], [3, 2], [1, 1]])
     for _ in range(n):
         z = t.pick([0, 1, 2, 2, 3, 3, 4, 5])
         # fractional position inside the level, mapped to a tile index at run time (the grid size is the loader's business)
         c = [t.choice(1000), t.choice(1000), z]
         if deep:
-            z = t.pick([8, 8, 8, 9, 7])
-            near = {8: [493, 497, 500, 504, 489, 508], 9: [247, 249, 250, 252, 499, 500], 7: [497, 500, 503]}[z]
+            z = t.pick([8, 8, 8, 9, 7, 1, 10, 11, 0])
+            near = {8: [493, 497, 500, 504, 489, 508], 9: [247, 249, 250, 252, 499, 500], 7: [497, 500, 503],
+                    10: [124, 125, 498, 500], 11: [62, 499, 500, 501], 1: [0, 600], 0: [0]}[z]
             c = [t.pick(near), t.pick(near), z]
         if c in seen:
             continue
@@ -98,8 +100,10 @@ def gen(t, tier):
     levels = t.weighted([('all', 1), ('list', 3), ('range', 2), ('open', 2)])
     if deep:
         levels = 'deep'
-        sc['levels'] = t.pick([[8], [8, 9], [9], {'from': 8}, {'from': 7, 'to': 8}])
-    if levels == 'list':
+        sc['levels'] = t.pick([[8], [8, 9], [9], {'from': 8}, {'from': 7, 'to': 8}, [1], [1, 8], {'to': 1}, [0, 10], [11]])
+    if levels == 'deep':
+        pass
+    elif levels == 'list':
         sc['levels'] = sorted(set(t.choice(nlev) for _ in range(t.randint(1, 3))))
         if t.chance(0.2):
             sc['levels'].append(99)         # not a level of this grid: to be ignored
@@ -143,6 +147,8 @@ def gen(t, tier):
         sc['coverage'] = [lo, t.pick([0.47, 0.48, 0.49]), lo + t.pick([0.01, 0.02, 0.03]), 0.5 + t.pick([0.004, 0.01, 0.02])]
         if t.chance(0.3):
             sc['coverage'] = [0.24, 0.24, 0.26, 0.26] if t.chance(0.5) else [0.49, 0.49, 0.51, 0.51]
+        if t.chance(0.35):
+            sc['coverage'] = None       # whole extent: the per-level fast paths of every backend on a deep pyramid
     sc['tz'] = t.pick(C.TIMEZONES)
     sc['mtime_res'] = t.pick([None, None, None, 1.0, 2.0])      # granularity of the file system's time stamps
     return sc
@@ -209,6 +215,9 @@ def run(sc, tape):
 
 
 def _run(sc, tape):
+    if sc['grid'].get('num_levels', 0) > 6 and sc['coverage'] is None and sc['backend'].get('directory_layout') in ('quadkey', 'reverse_tms'):
+        # (only reachable through shrinking) a whole-extent tile walk over a deep pyramid: millions of tiles, not a case
+        return {'violation': None, 'digest': 'skipped', 'nontrivial': False, 'steps': 0, 'sim_time': 0.0, 'faults': {}, 'probes': {}}
     seeder = C.import_seeder_threaded()
     import datetime as real_dt
     import mapproxy.util.times as times
@@ -224,6 +233,9 @@ def _run(sc, tape):
     sched = w.sched
     clock = w.clock
     w.fs.readdir_salt = sc['salt']
+    # the geopackage backend leaves its connections to the cyclic garbage collector (3 descriptors per reconnect): the
+    # collector is switched off inside a World, so it is run every 1000 scheduler steps instead
+    w.sched.gc_every = 1000
     w.fs.mtime_res = sc.get('mtime_res')
 
     w.extra_patches.append((times, 'datetime', C.datetime_module(clock)))
